@@ -87,6 +87,11 @@ def generic_rules(ctx) -> None:
     if files:
         n = superflow.check(ctx, f"{ctx.chk.prop}.override-forwarding", files)
         ctx.chk.extra["override_forwarding_sites"] = n
+        from .engines import guardconj
+        g = guardconj.check(ctx, f"{ctx.chk.prop}.guard-conjunction", files)
+        ctx.chk.extra["raising_guards_scanned"] = g
+        if g:
+            ctx.chk.ok(f"{ctx.chk.prop}.guard-conjunction", "anchor modules", f"{g} raising guards scanned; none combines inequalities on different subjects with `and`")
 
 
 def load_known() -> List[dict]:
